@@ -48,6 +48,11 @@ def opStep (sh : Shape) (s : AState) : Sexp → Option (AState × String)
     let id ← str id
     let (s', r) := item s id
     pure (s', match r with | some k => s!"i{k}" | none => "none")
+  | .list [.atom "itemi", id, .atom k] => do
+    -- item(id, index): one of the items that carry the id when the index is below their number, otherwise nothing (with an issue)
+    let id ← str id; let k ← k.toNat?
+    let (s', n) := itemCount s id
+    pure (s', if s'.hasModel && k < n then "some" else "none1")
   | .list [.atom "count", id] => do let id ← str id; let (s', n) := itemCount s id; pure (s', s!"n{n}")
   | .list [.atom "ids"] => let (s', l) := idsOf s; some (s', "(l" ++ String.join (l.map fun i => " " ++ H i) ++ ")")
   | .list [.atom "dups"] => let (s', l) := duplicateIds s; some (s', "(l" ++ String.join (l.map fun i => " " ++ H i) ++ ")")
